@@ -16,10 +16,14 @@ RULE = ("case = one real-RunEngine execution of rel_set / mvr / relative_set_wra
         "ending by success, by a detector failure at a seeded step (raise / failed status), by a mover's own motion status failing at its 1st/2nd set, or by stop / abort landing at a "
         "seeded loop coordinate; oracle: every target commanded by the body equals initial + requested offset, and for "
         "the resetting plans/wrappers the LAST set of every moved device equals its initial position on every exit path; "
+        "plus family pseudo_axes: reset_positions_wrapper with/without relative_set_wrapper on 2-3 pseudo axes of ONE ophyd.sim PseudoPositioner "
+        "(given as the moved axes / the parent / all axes), the axes first moved together or at different steps, the plan "
+        "succeeding or raising at a seeded step; oracle on the device: named axes stand at initial+offset after each relative step and the positioner is back at its initial position after the call; "
         "distinct = (plan, device kinds, exit path)")
 ASSUMPTIONS = ["tolerance 1e-12 relative on positions", "a Locatable's initial position is its setpoint (its readback is 0.02 off in these fakes)", "halt (no cleanup by definition) is not an exit 'with cleanup'"]
 REQUIRED_COUNTERS = {"set_failure_exits": 30, "executions": 400, "targets_checked": 1500, "resets_checked": 400, "failure_exits": 80,
-                     "stop_abort_exits": 40, "readonly_position_devices": 60, "locatable_devices": 60}
+                     "stop_abort_exits": 40, "readonly_position_devices": 60, "locatable_devices": 60,
+                     "pseudo_executions": 30, "pseudo_first_moves_apart": 15, "pseudo_failure_exits": 5}
 MANIFEST = {
     "technique": "device-ledger oracle (commanded targets vs initial+offset, last set vs initial) on real executions over "
                  "seeded positions, offsets, device kinds and exit paths incl. injected faults and stop/abort",
@@ -31,7 +35,7 @@ MANIFEST = {
     "design_ref": "5 (C24)",
 }
 PLANS = ["rel_set", "mvr", "relative_set_wrapper", "reset_positions_wrapper", "rel_scan", "rel_list_scan", "rel_grid_scan",
-         "rel_log_scan", "x2x_scan"]
+         "rel_log_scan", "x2x_scan", "pseudo_axes"]
 RESETTING = {"reset_positions_wrapper", "rel_scan", "rel_list_scan", "rel_grid_scan", "rel_log_scan", "x2x_scan"}
 
 
@@ -76,6 +80,85 @@ class ReadMotor(Base):
         return {}
 
 
+def run_pseudo(rng, sub):
+    """reset_positions_wrapper / relative_set_wrapper on the pseudo axes of ONE ophyd PseudoPositioner (ophyd.sim's 3x3, soft
+    real axes: every set is finished when it returns): the axes get their first move together or at DIFFERENT steps of the
+    plan; the plan ends by success or raises at a seeded step.  Oracle on the device itself: after every relative step the
+    moved axis stands at initial+offset and the others where they stood; after the call the positioner is back at its
+    initial position."""
+    import bluesky.plan_stubs as bps
+    import bluesky.preprocessors as bpp
+    from bluesky import RunEngine
+    from ophyd.sim import hw as make_hw
+
+    dev = make_hw().pseudo3x3
+    axes = [dev.pseudo1, dev.pseudo2, dev.pseudo3]
+    initial = tuple(rng.choice([0.0, 1.0, -2.0, 3.5, 5.25]) for _ in range(3))  # (the 3x3's pseudo axes are limited to +-10)
+    dev.set(*initial)
+    relative = rng.random() < 0.5
+    nsteps = rng.randint(2, 5)
+    steps = []
+    for _ in range(nsteps):
+        which = sorted(rng.sample(range(3), rng.choice([1, 1, 1, 2])))
+        steps.append([(k, rng.choice([-1.5, -0.5, 0.75, 2.0, 4.0])) for k in which])
+    moved = sorted({k for st in steps for k, _ in st})
+    given = rng.choice(["moved-axes", "parent", "all-axes"])
+    devices = {"moved-axes": [axes[k] for k in moved], "parent": [dev], "all-axes": list(axes)}[given]
+    fail_at = rng.choice([None, None, rng.randint(1, nsteps)])
+    first_moves = "together" if len({next(i for i, st in enumerate(steps) if any(k == a for k, _ in st)) for a in moved}) == 1 else "apart"
+    seen, problems = [], []
+    counters = {"executions": 1, "pseudo_executions": 1, "pseudo_first_moves_apart": int(first_moves == "apart" and len(moved) > 1),
+                "pseudo_failure_exits": 0, "targets_checked": 0, "resets_checked": 0}
+
+    def body():
+        for n, st in enumerate(steps, 1):
+            args = []
+            for k, v in st:
+                args += [axes[k], v]
+            yield from bps.mv(*args)
+            seen.append(tuple(dev.position))
+            if fail_at == n:
+                raise RuntimeError("seeded failure in the plan body")
+
+    plan = bpp.relative_set_wrapper(body(), devices) if relative else body()
+    plan = bpp.reset_positions_wrapper(plan, devices)
+    RE = RunEngine({}, context_managers=[])
+    try:
+        RE(plan)
+        outcome = "success"
+    except RuntimeError:
+        outcome = "plan-raised"
+        counters["pseudo_failure_exits"] = 1
+    final = tuple(dev.position)
+    state = str(RE.state)
+    key = f"pseudo_axes|{'relative+reset' if relative else 'reset'}|devices={given}|first-moves={first_moves}|moved={len(moved)}|exit={outcome}"
+    if state != "idle":
+        return R("inconclusive", key, detail=f"engine ended {state}")
+    tol = lambda a, b: abs(a - b) <= 1e-9 * max(1.0, abs(b))  # noqa: E731
+    # (only the axes a step names are judged: where a relative multi-axis move leaves an axis it does NOT name is not part
+    #  of the property - the unchanged wrapper sends such an axis to initial+0)
+    for st, got in zip(steps, seen):
+        counters["targets_checked"] += 1
+        bad = [(k, got[k], (initial[k] + v) if relative else v) for k, v in st if not tol(got[k], (initial[k] + v) if relative else v)]
+        if bad:
+            problems.append(("target-is-not-initial-plus-offset:pseudo-axis" if relative else "absolute-target-not-reached:pseudo-axis",
+                             f"after step {st}: position {got}; (axis, stands at, expected) {bad} (initial {initial})"))
+            break
+    counters["resets_checked"] += 1
+    if not all(tol(g, c) for g, c in zip(final, initial)):
+        problems.append((f"not-returned-to-initial-position:exit={outcome}:pseudo-axes-first-moved-{first_moves}",
+                         f"initial {initial}, ended at {final}; steps {steps}; devices={given}"))
+    if problems:
+        kdn, detail = problems[0]
+        return R("violated", key + "|" + kdn, True, sig=f"C24:pseudo_axes:{kdn}", detail=detail,
+                 witness={"plan": "pseudo_axes", "relative": relative, "devices": given, "initial": list(initial), "steps": steps,
+                          "fail_at": fail_at, "positions_after_steps": jsonable(seen), "final": list(final)},
+                 counters=counters, case=sub)
+    return R("held", key, True, counters=counters,
+             sample={"plan": "pseudo_axes", "relative": relative, "devices": given, "initial": list(initial), "steps": steps,
+                     "exit": outcome, "final": list(final)} if first_moves == "apart" else None)
+
+
 def worker_init(tier, seed):
     quiet_logging()
 
@@ -98,6 +181,9 @@ def run_case(case):
         rng = rng_for(case["seed"], "C24", i)
         sub = {"start": i, "count": 1, "seed": case["seed"]}
         pname = PLANS[i % len(PLANS)]
+        if pname == "pseudo_axes":
+            out.append(run_pseudo(rng, sub))
+            continue
         exit_kind = rng.choice(["success", "success", "fault-raise", "fault-status", "fault-set-status", "stop", "abort"])
         faults = {}
         h = Harness()
